@@ -95,6 +95,9 @@ type World struct {
 	HandlerErrs []string
 	// Panics lists panics caught while the follower entry points ran (Deliver)
 	Panics []string
+	// KeepSelection: RemoveRun must not select the survivor first (C19: the state in which the
+	// SELECTED wallet is removed)
+	KeepSelection bool
 	// RemovalSideEffects: what a completed removal changed for wallets other than the removed one
 	RemovalSideEffects []string
 	// SharedNode: the node belongs to a Base shared by many forks (fork.go); Close leaves it open
